@@ -19,7 +19,7 @@ REQUIRED = ["value==exhaustive min-max", "value==threshold-search oracle", "valu
 RULE = ("pairs of diagrams, sizes (0,0),(0,n),(1,1),(2,2)... up to M+N<=11 (exhaustive oracle over all partial matchings) "
         "and up to 60+60 quick / 150+150 thorough (scipy Hopcroft-Karp threshold oracle); classes: tiny integer grids "
         "(ties, repeated and diagonal points), dyadic, floats, diagonal-heavy, all-equal, one-ulp near-ties, clusters, re-paired copies (same births and deaths, different pairing); "
-        "scales 1e-6..1e6; one case in 1201 has 260-460 generic points per diagram; each case replayed under several hash seeds. non-trivial = both diagrams non-empty, M+N>=3 and "
+        "scales 1e-6..1e6; one case in 401 has 260-460 generic points per diagram or a total of 255..257 / 511..513 / 1025 points with the distance decided by the last point of one diagram; each case replayed under several hash seeds. non-trivial = both diagrams non-empty, M+N>=3 and "
         "(the optimum is strictly below the all-diagonal cost, i.e. a cross pairing is forced, or the optimum value "
         "occurs more than once among the candidate costs); distinct = digest of the input pair")
 ASSUMPTIONS = ["oracle cost rule written from the statement in scalar python: L-inf between points, (d-b)/2 to the diagonal",
@@ -76,15 +76,27 @@ def gen_large(rng):
     """a few hundred generic points per diagram: tens of thousands of distinct candidate distances"""
     scale = gen.pick_scale(rng)
     m, n = int(rng.integers(260, 461)), int(rng.integers(260, 461))
+    edge = rng.random() < 0.5
+    if edge:
+        # M+N at and next to a block size (255..257, 511..513, 1023..1025) and the distance decided by the LAST point of one diagram:
+        # a long bar far from everything else, whose diagonal cost sits in the last row / column of the table
+        tot = int(rng.choice([255, 256, 257, 511, 512, 513, 513, 513, 1025]))
+        m = int(rng.integers(tot // 3, 2 * tot // 3)); n = tot - m
     A = gen.diagram(rng, m, str(rng.choice(["float", "cluster", "diagheavy"])), scale)
     B = gen.diagram(rng, n, str(rng.choice(["float", "cluster", "diagheavy"])), scale)
-    if rng.random() < 0.3:
+    if rng.random() < 0.3 and not edge:
         B = A[rng.permutation(m)] + rng.normal(0, 1e-3 * scale, A.shape); B[:, 1] = np.maximum(B[:, 1], B[:, 0])
+    if edge:
+        far = np.array([50.0, 50.0 + float(rng.uniform(3.0, 9.0))]) * scale
+        if rng.random() < 0.5:
+            B[-1] = far
+        else:
+            A[-1] = far
     return A, B, scale
 
 
 def run_case(ctx, k, rng):
-    if k % 1201 == 7:
+    if k % 401 == 7:
         A, B, scale = gen_large(rng); small = False
         ctx.note("large-cases")
         ctx.begin(k, "large", {"dgm1": A, "dgm2": B})
